@@ -701,19 +701,19 @@ def h_run(col, bc, mode, ops):
     for op in ops:
         for e, ix in tables:
             col.guarded(lambda: h_apply(col, bc, e, select(bc.exp, ix), [bc.records[i] for i in ix], op, case), "history:step:" + op, case)
-    last = ops[-1]
+    stage = "history:after-" + ops[-1] + ":table-changed" if ops else "history:before-any-step:table-wrong"
     for e, ix in tables:
         exp = select(bc.exp, ix)
         n = len(ix)
-        p = "history:after-" + last + ":table-changed:direct"
+        p = stage + ":direct"
         compare(col, observe(col, e, p, case, bc), exp, p, case, one_sig=bc.one_sig)
-        p = "history:after-" + last + ":table-changed:subset"
+        p = stage + ":subset"
         for sel in (["index", list(range(n))[::-1]], ["mask", [i % 2 == 1 for i in range(n)]], ["slice", [None, None, 2]]):
             s = col.guarded(lambda: lib_select(e, sel), p, case)
             if s is not None:
                 compare(col, observe(col, s, p, case, bc), select(exp, apply_sel(ix, sel)), p, case, one_sig=bc.one_sig)
     # a table read afresh afterwards is the file's, too (no state shared between tables was altered)
-    p = "history:after-" + last + ":fresh-read-differs"
+    p = "history:after-" + ops[-1] + ":fresh-read-differs" if ops else "history:before-any-step:second-read-differs"
     fresh = col.guarded(lambda: h_tables(bc, "lazy")[0][0], p, case)
     if fresh is not None:
         compare(col, observe(col, fresh, p, case, bc), bc.exp, p, case, one_sig=bc.one_sig)
@@ -727,7 +727,7 @@ def c_history(col, bc, param):
     if not full.failures:
         return
     found = full
-    for k in range(1, len(ops)):
+    for k in range(0, len(ops)):      # k = 0: the table is wrong before any step (a decoding defect, not one of the history)
         part = Collector("C16", col.tier, col.seed, "scratch")
         h_run(part, bc, mode, ops[:k])
         if part.failures:
